@@ -38,6 +38,14 @@ type Arg struct {
 	// Ids; 2 broadcast through a channel holding Ids (all on the requester's front)
 	Mode int
 	Ids  []uint32
+	// Later: Send returns without completing and issues its whole sequence (N1 pushes, the
+	// completion, N2 pushes) from a closure posted to its service - an asynchronous completion
+	Later bool
+	// Kick != 0: before anything else Send kicks this connection of the requester's front-end (a
+	// front-local handler through the front's ClientSessions, a back-end through app.Kick while the
+	// front-end is kept busy, so that the front handles the kick and the pushes that follow it in one
+	// go: the kicked connection is closed but its session still registered when they list it)
+	Kick uint32
 	Ms   int // block: real milliseconds
 	// session scripts (C10)
 	K string
@@ -252,6 +260,69 @@ func (h *H) PSetKey(ctx *impls.HandlerContext, m *msgs.Hello1, cb apientry.Handl
 	apientry.CheckInvokeCBFunc(cb, nil, wrapProto(h.reply(ctx, s, "echo", a)))
 }
 
+// Zero completes successfully with an all-default result: "{}" under JSON, no bytes under protobuf.
+func (h *H) Zero(ctx *impls.HandlerContext, a *Arg, cb apientry.HandlerCBFunc) {
+	h.n.logInvocation(ctx, "zero", a.T)
+	apientry.CheckInvokeCBFunc(cb, nil, &msgs.Hello1{})
+}
+
+// The protobuf-serializer twins of the behaviour methods (argument / reply: msgs.Hello1 carrying
+// the JSON payload; an all-default reply is &msgs.Hello1{}).
+func (h *H) PEcho(ctx *impls.HandlerContext, m *msgs.Hello1, cb apientry.HandlerCBFunc) {
+	a := argOf(m)
+	s := h.n.logInvocation(ctx, "echo", a.T)
+	apientry.CheckInvokeCBFunc(cb, nil, wrapProto(h.reply(ctx, s, "echo", a)))
+}
+
+func (h *H) PBig(ctx *impls.HandlerContext, m *msgs.Hello1, cb apientry.HandlerCBFunc) {
+	a := argOf(m)
+	s := h.n.logInvocation(ctx, "big", a.T)
+	r := h.reply(ctx, s, "echo", a)
+	r.Pad = strings.Repeat("x", a.Pad)
+	apientry.CheckInvokeCBFunc(cb, nil, wrapProto(r))
+}
+
+func (h *H) PZero(ctx *impls.HandlerContext, m *msgs.Hello1, cb apientry.HandlerCBFunc) {
+	h.n.logInvocation(ctx, "zero", argOf(m).T)
+	apientry.CheckInvokeCBFunc(cb, nil, &msgs.Hello1{})
+}
+
+func (h *H) PFail(ctx *impls.HandlerContext, m *msgs.Hello1, cb apientry.HandlerCBFunc) {
+	h.n.logInvocation(ctx, "fail", argOf(m).T)
+	apientry.CheckInvokeCBFunc(cb, errors.New("harness failure"), nil)
+}
+
+func (h *H) PBoom(ctx *impls.HandlerContext, m *msgs.Hello1, cb apientry.HandlerCBFunc) {
+	h.n.logInvocation(ctx, "boom", argOf(m).T)
+	panic("harness panic")
+}
+
+func (h *H) PNever(ctx *impls.HandlerContext, m *msgs.Hello1, cb apientry.HandlerCBFunc) {
+	h.n.logInvocation(ctx, "never", argOf(m).T)
+}
+
+func (h *H) PNote(ctx *impls.HandlerContext, m *msgs.Hello1) {
+	h.n.logInvocation(ctx, "note", argOf(m).T)
+}
+
+// PUnenc: a result that is not a proto.Message cannot be encoded.
+func (h *H) PUnenc(ctx *impls.HandlerContext, m *msgs.Hello1, cb apientry.HandlerCBFunc) {
+	h.n.logInvocation(ctx, "unenc", argOf(m).T)
+	apientry.CheckInvokeCBFunc(cb, nil, &struct{ X int }{1})
+}
+
+func (h *H) PEchoLater(ctx *impls.HandlerContext, m *msgs.Hello1, cb apientry.HandlerCBFunc) {
+	a := argOf(m)
+	s := h.n.logInvocation(ctx, "echolater", a.T)
+	r := h.reply(ctx, s, "echo", a)
+	s.NodeService.Post(func() { apientry.CheckInvokeCBFunc(cb, nil, wrapProto(r)) })
+}
+
+func (h *H) PUnencLater(ctx *impls.HandlerContext, m *msgs.Hello1, cb apientry.HandlerCBFunc) {
+	s := h.n.logInvocation(ctx, "unenclater", argOf(m).T)
+	s.NodeService.Post(func() { apientry.CheckInvokeCBFunc(cb, nil, &struct{ X int }{1}) })
+}
+
 func (h *H) doSend(ctx *impls.HandlerContext, a *Arg, cb apientry.HandlerCBFunc, wrap func(any) any) {
 	s := h.n.logInvocation(ctx, "send", a.T)
 	r := h.reply(ctx, s, "sent", a)
@@ -276,42 +347,62 @@ func (h *H) doSend(ctx *impls.HandlerContext, a *Arg, cb apientry.HandlerCBFunc,
 	}
 	ctr := &h.n.ctr[InstOf(s.name)]
 	seq := a.Seq0
-	var ch *channel.Channel
-	chName := ""
-	if a.Mode == 2 {
-		svc := s.GetComponent("channel").(*impls.ChannelComponent).GetCS()
-		chName = "e2e-" + s.name + "-" + strconv.FormatInt(a.T, 10)
-		for _, id := range a.Ids {
-			svc.AddToChannel(chName, r.Front, id)
-		}
-		ch = svc.GetChannel(chName)
-		defer svc.DeleteChannel(chName)
-	}
-	push := func(k int) {
-		for i := 0; i < k; i++ {
-			*ctr++
-			var body any = wrap(&PushBody{Svc: s.name, T: a.T, Seq: seq, Ctr: *ctr, Pad: padOf(seq)})
-			if padN(seq) < 0 {
-				// a message whose fields all have their default value: zero bytes under protobuf,
-				// "{}" under JSON - it identifies nothing, but it has to arrive
-				body = &msgs.Hello1{}
+	body := func() {
+		if a.Kick != 0 {
+			if fi := FrontOf(s.name); fi >= 0 {
+				if sc, _ := s.GetComponent("sessions").(*impls.SessionsComponent); sc != nil {
+					sc.GetSessions().Kick(a.Kick)
+				}
+			} else {
+				h.n.BusyFront(8 * time.Millisecond)
+				app.Kick(s.NodeService, r.Front, a.Kick, nil)
 			}
-			switch {
-			case a.Mode == 1:
-				app.PushMessageByIds(s.NodeService, r.Front, a.Ids, "onSeq", body)
-			case a.Mode == 2 && ch != nil:
-				ch.PushMessage("onSeq", body)
-			case a.Mode == 2:
-			default:
-				app.PushMessageById(s.NodeService, r.Front, r.NetId, "onSeq", body)
-			}
-			seq++
 		}
+		var ch *channel.Channel
+		chName := ""
+		if a.Mode == 2 {
+			svc := s.GetComponent("channel").(*impls.ChannelComponent).GetCS()
+			chName = "e2e-" + s.name + "-" + strconv.FormatInt(a.T, 10)
+			for _, id := range a.Ids {
+				svc.AddToChannel(chName, r.Front, id)
+			}
+			ch = svc.GetChannel(chName)
+			defer svc.DeleteChannel(chName)
+		}
+		push := func(k int) {
+			for i := 0; i < k; i++ {
+				*ctr++
+				var body any = wrap(&PushBody{Svc: s.name, T: a.T, Seq: seq, Ctr: *ctr, Pad: padOf(seq)})
+				if padN(seq) < 0 {
+					// a message whose fields all have their default value: zero bytes under protobuf,
+					// "{}" under JSON - it identifies nothing, but it has to arrive
+					body = &msgs.Hello1{}
+				}
+				switch {
+				case a.Mode == 1:
+					app.PushMessageByIds(s.NodeService, r.Front, a.Ids, "onSeq", body)
+				case a.Mode == 2 && ch != nil:
+					ch.PushMessage("onSeq", body)
+				case a.Mode == 2:
+				default:
+					app.PushMessageById(s.NodeService, r.Front, r.NetId, "onSeq", body)
+				}
+				seq++
+			}
+		}
+		push(a.N1)
+		*ctr++
+		r.Ctr = *ctr
+		r.Pad = strings.Repeat("x", a.RPad)
+		apientry.CheckInvokeCBFunc(cb, nil, wrap(r))
+		push(a.N2)
 	}
-	push(a.N1)
-	*ctr++
-	r.Ctr = *ctr
-	r.Pad = strings.Repeat("x", a.RPad)
-	apientry.CheckInvokeCBFunc(cb, nil, wrap(r))
-	push(a.N2)
+	if a.Later {
+		s.NodeService.Post(func() {
+			atomic.AddInt64(&h.n.activity, 1)
+			body()
+		})
+		return
+	}
+	body()
 }
